@@ -2,16 +2,19 @@
 
 Energy family (x in R^n; p0 in R^k0 'bc', p1 in R^k1 'state', p2 in R^n 'design', p4 scalar 'time'):
 
-    E(x;p) = 1/2 x'(A + diag(p2)) x + 1/4 c4 sum x_i^4 - (B p0).x - sin(p4) (w.x) + 1/2 (x . C p1)^2 - (D p2).x
+    E(x;p) = 1/2 x'(A + diag(p2)) x + 1/4 c4 sum x_i^4 - s (B p0).x - sin(p4) (w.x) + 1/2 (x . C p1)^2 - (D p2).x
+    s      = 1 + a1.p1 + a2.p2 + mu sin(p4)
 
-    (the last term makes G2 non-symmetric, so that a transposed design Jacobian is observable)
+    (the last term makes G2 non-symmetric, so that a transposed design Jacobian is observable; the factor s couples the
+    bc slot to every other slot -- added after a seeded change that evaluated the bc Jacobian with stale state/design/
+    time went undetected because G0 was constant)
 
-    grad_x E = (A + diag(p2)) x + c4 x^3 - B p0 - sin(p4) w + (x . C p1) C p1 - D p2
+    grad_x E = (A + diag(p2)) x + c4 x^3 - s B p0 - sin(p4) w + (x . C p1) C p1 - D p2
     H        = A + diag(p2) + 3 c4 diag(x^2) + (C p1)(C p1)'
-    G0 = d grad / d p0 = -B
-    G1 = d grad / d p1 = (C p1)(x' C) + (x . C p1) C
-    G2 = d grad / d p2 = diag(x) - D
-    G4 = d grad / d p4 = -cos(p4) w
+    G0 = d grad / d p0 = -s B
+    G1 = d grad / d p1 = (C p1)(x' C) + (x . C p1) C - (B p0) a1'
+    G2 = d grad / d p2 = diag(x) - D - (B p0) a2'
+    G4 = d grad / d p4 = -cos(p4) (w + mu B p0)
 
 Implicit function theorem: dx*/dp_k = -H^-1 G_k; the reverse-mode cotangent for v is -v' H^-1 G_k.
 Load-step chains: forward (tangent) chain rule with dense matrices.
@@ -19,9 +22,16 @@ Load-step chains: forward (tangent) chain rule with dense matrices.
 import numpy as onp
 
 
+def bc_scale(p1, p2, p4, d):
+    """s(p1,p2,p4) = 1 + a1.p1 + a2.p2 + mu sin(p4): the bc load term is -s (B p0).x, so the bc Jacobian -s B depends on
+    every other slot (a stale state/design/time inside the bc cotangent is observable) and vanishing slots drop out."""
+    return 1.0 + d["a1"] @ p1 + d["a2"] @ p2 + d["mu"] * onp.sin(p4)
+
+
 def grad(x, p0, p1, p2, p4, d):
     cp = d["C"] @ p1
-    return (d["A"] + onp.diag(p2)) @ x + d["c4"] * x ** 3 - d["B"] @ p0 - onp.sin(p4) * d["w"] + (x @ cp) * cp - d["D"] @ p2
+    return ((d["A"] + onp.diag(p2)) @ x + d["c4"] * x ** 3 - bc_scale(p1, p2, p4, d) * (d["B"] @ p0)
+            - onp.sin(p4) * d["w"] + (x @ cp) * cp - d["D"] @ p2)
 
 
 def hess(x, p1, p2, d):
@@ -32,10 +42,11 @@ def hess(x, p1, p2, d):
 def param_jacobians(x, p0, p1, p2, p4, d):
     """{slot: G_slot} dense, shapes (n,k0), (n,k1), (n,n), (n,1)."""
     cp = d["C"] @ p1
-    return {0: -d["B"].copy(),
-            1: onp.outer(cp, x @ d["C"]) + (x @ cp) * d["C"],
-            2: onp.diag(x) - d["D"],
-            4: (-onp.cos(p4) * d["w"]).reshape(-1, 1)}
+    b = d["B"] @ p0
+    return {0: -bc_scale(p1, p2, p4, d) * d["B"],
+            1: onp.outer(cp, x @ d["C"]) + (x @ cp) * d["C"] - onp.outer(b, d["a1"]),
+            2: onp.diag(x) - d["D"] - onp.outer(b, d["a2"]),
+            4: (-onp.cos(p4) * d["w"] - d["mu"] * onp.cos(p4) * b).reshape(-1, 1)}
 
 
 def solve(p0, p1, p2, p4, d, x0=None, iters=200):
